@@ -257,6 +257,10 @@ type fakeManager struct {
 
 func (m fakeManager) GetClient() client.Client { return m.c }
 
+// switchClient is the client a long-lived Reconciler holds; each reconcile run plugs its own
+// fault-injecting verifsim client in.
+type switchClient struct{ client.Client }
+
 type xrSlot struct {
 	name string
 	made bool
@@ -283,6 +287,16 @@ type world struct {
 	// unnotified counts changes of revisions for which no create event exists (renumbering,
 	// adoption, loss of owner references); fetchEpoch is the value of unnotified at an XR's last
 	// reconcile that was not cut short by an injected fault.
+	// The revision controller is ONE long-lived composition.Reconciler, as in a running
+	// Crossplane: it is rebuilt only where the controller process would restart (after an
+	// injected crash, on the drawn "restart" action, and for each rewound branch of a fault sweep).
+	rc       *composition.Reconciler
+	rcClient *switchClient
+	rcRuns   int // reconciles served by the current instance
+	// class counters: metadata-only edits (generation unchanged) followed by a reconcile of the same instance
+	metaOnlyPending bool
+	metaOnlySameRC  int
+
 	pending    []*v1.CompositionRevision
 	queue      map[string]bool
 	unnotified int
@@ -517,10 +531,20 @@ func (w *world) edit(i int) string {
 	comp.SetLabels(copyLabels(c.Labels))
 	comp.SetAnnotations(annVariant(c.Ann))
 	comp.Spec = specVariant(c.Spec)
+	genBefore := comp.GetGeneration()
 	if err := cl.Update(context.Background(), comp); err != nil {
 		panic(err)
 	}
 	old := w.pool[w.cur]
+	// The API server bumps metadata.generation on spec changes only: a label- or
+	// annotation-only edit is a real update that leaves the generation unchanged.
+	specChanged := c.Spec != old.Spec
+	if got := comp.GetGeneration(); specChanged && got != genBefore+1 || !specChanged && got != genBefore {
+		panic(fmt.Sprintf("harness: generation %d -> %d on an edit with spec change = %v", genBefore, got, specChanged))
+	}
+	if !specChanged && i != w.cur {
+		w.metaOnlyPending = true
+	}
 	kind := "noop"
 	switch {
 	case i == w.cur:
@@ -542,11 +566,34 @@ func (w *world) edit(i int) string {
 	return kind
 }
 
-// reconcileRevisions runs the revision controller once with a fault plan.
+// restart replaces the revision controller by a fresh instance (process restart).
+func (w *world) restart() {
+	w.rcClient = &switchClient{}
+	w.rc = composition.NewReconciler(fakeManager{c: w.rcClient})
+	w.rcRuns = 0
+	w.metaOnlyPending = false
+}
+
+// reconcileRevisions runs the long-lived revision controller once with a fault plan.
 func (w *world) reconcileRevisions(plan map[int]verifsim.Fault) (*verifsim.Run, reconcile.Result, error) {
+	if w.rc == nil {
+		w.restart()
+	}
 	run := w.sim.NewRun("revision-controller", plan)
-	r := composition.NewReconciler(fakeManager{c: run.Client()})
-	res, err := r.Reconcile(context.Background(), reconcile.Request{NamespacedName: types.NamespacedName{Name: compName}})
+	w.rcClient.Client = run.Client()
+	if w.metaOnlyPending && w.rcRuns > 0 {
+		w.metaOnlySameRC++
+		if w.label != nil {
+			w.label("reconcile:metadata-only edit, generation unchanged, same reconciler instance")
+		}
+	}
+	w.metaOnlyPending = false
+	w.rcRuns++
+	res, err := w.rc.Reconcile(context.Background(), reconcile.Request{NamespacedName: types.NamespacedName{Name: compName}})
+	if run.Crashed {
+		// The injected crash kills the controller process: the next reconcile is served by a new instance.
+		w.restart()
+	}
 	return run, res, err
 }
 
@@ -1097,6 +1144,13 @@ func (w *world) sweep(then int) int {
 		w.label = func(l string) { outer("in-sweep:" + l) }
 		defer func() { w.label = outer }()
 	}
+	// The long-lived controller instance must not carry memory from one rewound branch into
+	// another (a real process cannot): the probe and every branch get a fresh instance (= the
+	// controller restarted at the snapshot), and the outer instance, which has seen nothing of
+	// the sweep, continues afterwards.
+	orc, ocl, oruns, opend := w.rc, w.rcClient, w.rcRuns, w.metaOnlyPending
+	defer func() { w.rc, w.rcClient, w.rcRuns, w.metaOnlyPending = orc, ocl, oruns, opend }()
+	w.restart()
 	probe, _ := w.reconcile(nil)
 	K := probe.N
 	n := 0
@@ -1106,6 +1160,7 @@ func (w *world) sweep(then int) int {
 			w.restoreModel(mb)
 			w.cur, w.seen, w.specJSON = cur, copySeen(seen), copySpecs(specs)
 			w.hist = append(w.hist, fmt.Sprintf("[sweep call %d of %d: %s]", k, K, probe.Calls[k]))
+			w.restart()
 			w.reconcile(map[int]verifsim.Fault{k: f})
 			if then >= 0 {
 				w.edit(then)
@@ -1172,6 +1227,15 @@ func TestVerifC12Histories(t *testing.T) {
 		rec.Labelf("history:poll-free=%v", pollFree)
 		sweeps := 0
 		t.Repeat(map[string]func(*rapid.T){
+			"restart": func(t *rapid.T) {
+				// Controllers restart rarely compared with edits and reconciles.
+				if rapid.IntRange(0, 3).Draw(t, "restartnow") != 0 {
+					t.Skip("no restart now")
+				}
+				w.restart()
+				w.hist = append(w.hist, "restart")
+				rec.Label("restart")
+			},
 			"drain": func(t *rapid.T) {
 				if len(w.pending) == 0 && len(w.queue) == 0 {
 					t.Skip("nothing pending")
@@ -1328,6 +1392,8 @@ func runPinnedPool(pool []content, fail func(string, ...any), steps []step) *wor
 			w.sweep(s.arg)
 		case "drain":
 			w.drainQueue(s.plan)
+		case "restart":
+			w.restart()
 		default:
 			panic(s.op)
 		}
@@ -1393,6 +1459,25 @@ func TestVerifC12PinnedDomainLabels(t *testing.T) {
 		if got := withoutReserved(verifsim.Labels(w.revs()[name])); !sameLabels(got, xpPool[c].Labels) {
 			t.Fatalf("revision %s of content %d has labels %v, want %v", name, c, got, xpPool[c].Labels)
 		}
+	}
+}
+
+// TestVerifC12PinnedLongLived: ONE revision controller instance serves the whole history, and
+// label-only / annotation-only edits leave metadata.generation unchanged. Every distinct content
+// must still get its revision, and a metadata-only revert must still be renumbered. (Class of a
+// seeded change that memoized Composition.Hash() per UID and generation inside the Reconciler.)
+func TestVerifC12PinnedLongLived(t *testing.T) {
+	w := runPinned(func(f string, a ...any) { t.Fatalf(f, a...) }, []step{{op: "create", arg: 0}, {op: "reconcile"},
+		{op: "edit", arg: 2}, {op: "reconcile"}, // label-only
+		{op: "edit", arg: 3}, {op: "reconcile"}, // label removed + annotation added, spec unchanged
+		{op: "edit", arg: 0}, {op: "reconcile"}, // metadata-only revert
+		{op: "edit", arg: 1}, {op: "reconcile"}, // spec change
+		{op: "edit", arg: 3}, {op: "reconcile"}, {op: "restart"}, {op: "edit", arg: 2}, {op: "reconcile"}})
+	if w.metaOnlySameRC != 3 {
+		t.Fatalf("expected 3 reconciles of the same instance after metadata-only edits, got %d", w.metaOnlySameRC)
+	}
+	if len(w.revs()) != 4 || w.creates != 4 || w.renumbers != 3 {
+		t.Fatalf("expected 4 revisions, 4 creates, 3 renumbers; got %s creates=%d renumbers=%d", w.describeRevs(), w.creates, w.renumbers)
 	}
 }
 
